@@ -345,6 +345,131 @@ mut("stream_group_remove_keeps_state", ["C12"],
     "StreamGroup::remove leaves the key in the key set (a later poll indexes a vacant slab slot)")
 
 
+# ---------------------------------------------------------------- concurrent streams
+mut("for_each_backpressure_off_by_one", ["C13"],
+    [("src/concurrent_stream/for_each.rs", "while this.count.load(Ordering::Relaxed) >= *this.limit {", "while this.count.load(Ordering::Relaxed) > *this.limit {")],
+    "for_each back-pressure admits limit + 1 closure futures")
+
+mut("for_each_flush_waits_for_one", ["C13"],
+    [("src/concurrent_stream/for_each.rs", """    async fn flush(self: Pin<&mut Self>) -> Self::Output {
+        let mut this = self.project();
+        while (this.group.next().await).is_some() {}
+    }""", """    async fn flush(self: Pin<&mut Self>) -> Self::Output {
+        let mut this = self.project();
+        this.group.next().await;
+    }""")],
+    "for_each resolves when the first in-flight closure future completes after the source ended")
+
+mut("for_each_count_released_at_closure_call", ["C13"],
+    [("src/concurrent_stream/for_each.rs", """            this.fut_t = None;
+            this.fut_b = Some(fut_b);
+        }
+
+        if let Some(fut) = this.fut_b.as_mut() {
+            ready!(unsafe { Pin::new_unchecked(fut) }.poll(cx));
+            this.count.fetch_sub(1, Ordering::Relaxed);""", """            this.fut_t = None;
+            this.fut_b = Some(fut_b);
+            this.count.fetch_sub(1, Ordering::Relaxed);
+        }
+
+        if let Some(fut) = this.fut_b.as_mut() {
+            ready!(unsafe { Pin::new_unchecked(fut) }.poll(cx));""")],
+    "the in-flight counter is released when the closure is called, not when its future completes")
+
+mut("try_for_each_progress_drops_residual", ["C14"],
+    [("src/concurrent_stream/try_for_each.rs", """        while let Some(res) = this.group.next().await {
+            if let ControlFlow::Break(residual) = res.branch() {
+                *this.residual = Some(residual);
+                return ConsumerState::Break;
+            }
+        }
+        ConsumerState::Empty""", """        while let Some(res) = this.group.next().await {
+            if let ControlFlow::Break(_residual) = res.branch() {
+                return ConsumerState::Break;
+            }
+        }
+        ConsumerState::Empty""")],
+    "progress forgets the error it saw: flush reports Ok unless another future fails")
+
+mut("try_for_each_send_swallows_error", ["C14"],
+    [("src/concurrent_stream/try_for_each.rs", """                    ControlFlow::Break(residual) => {
+                        *this.residual = Some(residual);
+                        return ConsumerState::Break;
+                    }""", """                    ControlFlow::Break(residual) => {
+                        *this.residual = Some(residual);
+                        break;
+                    }""")],
+    "an error seen in the back-pressure loop is stored but the item is still pushed and the source keeps being driven")
+
+mut("result_vec_progress_reports_empty_on_error", ["C14"],
+    [("src/concurrent_stream/from_concurrent_stream.rs", """                Err(e) => {
+                    **this.output = Err(e);
+                    return ConsumerState::Break;
+                }""", """                Err(e) => {
+                    **this.output = Err(e);
+                    return ConsumerState::Empty;
+                }""")],
+    "collect into Result: after an error the driver is told 'empty' and takes one more item from the source")
+
+mut("vec_consumer_flush_takes_one", ["C15"],
+    [("src/concurrent_stream/from_concurrent_stream.rs", """    async fn flush(self: Pin<&mut Self>) -> Self::Output {
+        let mut this = self.project();
+        while let Some(item) = this.group.next().await {
+            this.output.push(item);
+        }
+    }""", """    async fn flush(self: Pin<&mut Self>) -> Self::Output {
+        let mut this = self.project();
+        if let Some(item) = this.group.next().await {
+            this.output.push(item);
+        }
+    }""")],
+    "collect's final flush takes only one of the futures still in flight")
+
+mut("enumerate_counts_after_send", ["C15"],
+    [("src/concurrent_stream/enumerate.rs", """        let count = *this.count;
+        *this.count += 1;
+        this.inner.send(EnumerateFuture::new(future, count)).await""", """        let state = this.inner.send(EnumerateFuture::new(future, *this.count)).await;
+        if !matches!(state, super::ConsumerState::Break) {
+            *this.count += 1;
+        }
+        state""")],
+    "equivalent on purpose (control): the index is still attached at send time")
+
+mut("take_counts_only_continue", ["C15"],
+    [("src/concurrent_stream/take.rs", """        *this.count += 1;
+        let state = this.inner.send(future).await;
+        if this.count >= this.limit {""", """        let state = this.inner.send(future).await;
+        *this.count += 1;
+        if this.count > this.limit {""")],
+    "take(n) lets n + 1 items through (the pinned take test asserts n < 5 on take(5) and does catch this one; kept as a sanity row)")
+
+# ---------------------------------------------------------------- auto traits
+mut("for_each_counter_rc", ["C18"],
+    [("src/concurrent_stream/for_each.rs", "use alloc::sync::Arc;", "use alloc::rc::Rc as Arc;")],
+    "the in-flight counter of for_each lives in an Rc: the for_each future is no longer Send")
+
+mut("try_for_each_counter_rc", ["C18"],
+    [("src/concurrent_stream/try_for_each.rs", "use alloc::sync::Arc;", "use alloc::rc::Rc as Arc;")],
+    "the in-flight counter of try_for_each lives in an Rc")
+
+mut("indexer_cell_marker", ["C18"],
+    [("src/utils/indexer.rs", """pub(crate) struct Indexer {
+    offset: usize,
+    max: usize,
+}""", """pub(crate) struct Indexer {
+    offset: usize,
+    max: usize,
+    _not_sync: core::marker::PhantomData<core::cell::Cell<()>>,
+}"""),
+     ("src/utils/indexer.rs", "Self { offset: 0, max }", "Self { offset: 0, max, _not_sync: core::marker::PhantomData }")],
+    "a Cell marker in the rotating indexer: merge / race / race_ok stay Send but are no longer Sync")
+
+mut("stream_group_raw_pointer_marker", ["C18"],
+    [("src/stream/stream_group.rs", "    capacity: usize,\n}", "    capacity: usize,\n    _marker: core::marker::PhantomData<*const ()>,\n}"),
+     ("src/stream/stream_group.rs", "            capacity,\n        }", "            capacity,\n            _marker: core::marker::PhantomData,\n        }")],
+    "a raw-pointer marker in StreamGroup: neither Send nor Sync")
+
+
 def sh(cmd, **kw):
     return subprocess.run(cmd, stdout=subprocess.PIPE, stderr=subprocess.STDOUT, text=True, **kw)
 
